@@ -41,6 +41,7 @@ var entryFuncs = map[string]bool{
 func main() {
 	src := flag.String("src", "/repo/larking", "package directory")
 	out := flag.String("out", "", "directory for rewritten files and overlay.json")
+	as := flag.String("as", "", "directory the overlay keys refer to (default: -src); with -as every source file is mapped, so a scratch copy can stand in for that directory")
 	flag.Parse()
 	if *out == "" {
 		fmt.Fprintln(os.Stderr, "instrument: -out required")
@@ -55,7 +56,14 @@ func main() {
 	sites := map[string]int{}
 	for _, f := range files {
 		base := filepath.Base(f)
-		if strings.HasSuffix(base, "_test.go") || base == "verif_hooks.go" {
+		if strings.HasSuffix(base, "_test.go") {
+			continue
+		}
+		if base == "verif_hooks.go" {
+			if *as != "" {
+				abs, _ := filepath.Abs(f)
+				overlay[filepath.Join(*as, base)] = abs
+			}
 			continue
 		}
 		data, err := os.ReadFile(f)
@@ -146,7 +154,7 @@ func main() {
 				return true
 			})
 		}
-		if len(edits) == 0 {
+		if len(edits) == 0 && *as == "" {
 			continue
 		}
 		sort.Slice(edits, func(i, j int) bool {
@@ -168,6 +176,9 @@ func main() {
 			fatal(err)
 		}
 		abs, _ := filepath.Abs(f)
+		if *as != "" {
+			abs = filepath.Join(*as, base)
+		}
 		overlay[abs] = dst
 		total += len(edits)
 	}
